@@ -12,11 +12,16 @@ def handleC18 (j : Json) : Except String Json := do
   let ld ← load j
   let ref := ld.ref ()
   let rej := ld.ob.error.isSome
+  -- with a validation module (which, in the C18 cases, never requests a stop before the fault):
+  -- the criterion history, the invocations and the best parameters up to and including the
+  -- failing iteration must be those of the schedule (`Holds.C19`)
   let holds := match Jinns.Holds.holdsC18 ref rej ld.ob.obs with
     | some c => some c
-    | none => Jinns.Holds.holdsC07 ref rej ld.ob.obs
+    | none => match Jinns.Holds.holdsC07 ref rej ld.ob.obs with
+      | some c => some c
+      | none => holdsValidation ld ref
   let k := Jinns.Holds.SolveAux.firstFault ref
-  let r := answer ld ["iters", "batches", "params", "loss_hist", "term_hist", "tracked"] holds
+  let r := answer ld ["iters", "batches", "params", "loss_hist", "term_hist", "tracked", "crit_hist", "best", "calls"] holds
   pure (r.mergeObj (Json.mkObj [
     ("fault_at", match k with | none => Json.null | some k => Json.num (k : Nat)),
     ("initial_nan", Json.bool (Jinns.SolveTrace.hasNaN ld.pg.θ0))]))
